@@ -3,13 +3,13 @@ CONSTANTS
   CfgNames = {"wts", "mix3"}
   LibVers = {0, 1, 2}
   Fams = {4, 6}
-  NSel = 2
+  NSel = 1
   Mode = "proc"
   ProcSeedKs = {0, 1, 2, 3}
   RNG = "local"
   AddrBytes = "fill"
   NetBase = "masked"
-  DerivedMode = "once"
+  DerivedMode = "lazy-unsynchronised"
 VIEW view
-INVARIANTS TypeOK DerivedSound Contained WellFormed RandPortFromSubnet Pure NoSpuriousError
+INVARIANTS TypeOK DerivedSound Pure Contained RandPortFromSubnet
 CHECK_DEADLOCK FALSE
